@@ -38,6 +38,7 @@ struct Act {
 };
 struct Scenario {
     bool strict = false, ignoreOtherCalls = false, readReturn = false, outParam = false;
+    int extraOut = 0;      // 1 / 2: every actual call also passes an output parameter "x" no expectation names, before / after "o"
     int scoped = 0;        // 1: function index 1 is "f" in the mock scope "s" (instead of the global function "g");
                            // 2: function 0 is "f" in scope "s" and function 1 is "f" in scope "t" (two named scopes, global mock unused)
     std::vector<Exp> exps;
@@ -69,6 +70,7 @@ inline std::string render(const Scenario& s) {
     }
     if (s.readReturn) o += "[return values read] ";
     if (s.outParam) o += "[output parameter o] ";
+    if (s.extraOut) o += s.extraOut == 1 ? "[unnamed output parameter x passed before o] " : "[unnamed output parameter x passed after o] ";
     return o;
 }
 
